@@ -176,6 +176,18 @@ def scenario(sim):
     for t in (p.tc, p.ts):
         ssh.configure(t, kex=kex, hostkey_algo=halgo)
     desc = {"kex": kex, "hostkey_algo": halgo, "fault": fault, "target_exchange": target, "rekeys": nrekey}
+    # identification strings with a comment part (RFC 4253 4.2: "SSH-2.0-software SP comments"); the whole line,
+    # comment included, goes into the exchange hash on both sides
+    if sim.choose(3) == 0:
+        for t in (p.tc, p.ts):
+            if sim.choose(2):
+                t.local_version = t.local_version + " " + ("Ubuntu-3ubuntu0.6", "a comment with  two spaces", "x")[sim.choose(3)]
+        desc["banners"] = [p.tc.local_version, p.ts.local_version]
+        sim.probe("banner_with_comment")
+    # honest runs with re-keys: the server may have had its host key replaced (same algorithm) in between
+    swap_to = {"rsa1": "rsa2", "ecdsa256_1": "ecdsa256_2", "ed25519_1": "ed25519_2"}.get(ssh.HOSTKEY_ALGOS[halgo])
+    swap_before = sim.choose(nrekey) if (fault is None and nrekey and swap_to and sim.choose(3) == 0) else None
+    desc["host_key_replaced_before_rekey"] = swap_before
     errors = []
     try:
         p.start(timeout=60)
@@ -189,6 +201,9 @@ def scenario(sim):
         ok = ssh.echo_round(sim, ch, sch, 100, 100)
         for r in range(nrekey):
             who = (p.tc, p.ts)[sim.choose(2)]
+            if swap_before == r:
+                p.ts.add_server_key(ssh.key(swap_to))
+                sim.probe("host_key_replaced_between_exchanges")
             try:
                 who.renegotiate_keys()
             except Exception as e:
@@ -227,8 +242,10 @@ def scenario(sim):
             if not oksig:
                 raise Violation(("C06", "signature-does-not-verify", ktype, sname),
                                 "exchange %d: server signature (%s) does not verify over H under the host key shown (%s)" % (j, sname, ktype), desc)
-            if p.tc.get_remote_server_key().asbytes() != rf["K_S"]:
-                raise Violation(("C06", "reported-host-key-differs"), "client reports a different host key than the one in the reply", desc)
+            if j == len(exs) - 1 and p.tc.get_remote_server_key().asbytes() != rf["K_S"]:
+                raise Violation(("C06", "reported-host-key-differs", "after-replacement" if swap_before is not None else "same-key"),
+                                "after exchange %d the client reports a host key other than the one the signature of that "
+                                "exchange was made and verified with" % j, desc)
             first_H = first_H or H
         if p.tc.session_id != first_H or p.ts.session_id != first_H:
             raise Violation(("C06", "session-id-changed"), "session id is not the first exchange hash after %d rekeys" % nrekey, desc)
